@@ -46,6 +46,20 @@ def depths(code):
     return depth
 
 
+SELF_CHECKS = [0]
+_opnames = {}
+
+
+def _opname_at(code, offset):
+    m = _opnames.get(id(code))
+    if m is None or m[0] is not code:
+        m = (code, dict((i.offset, i.opname) for i in dis.get_instructions(code)))
+        if len(_opnames) > 512:
+            _opnames.clear()
+        _opnames[id(code)] = m
+    return m[1].get(offset)
+
+
 def live_slots(frame, raw_struct, finished):
     """[address or 0] for every value-stack slot the frame owns at this moment
     (index = slot number).  The frame's thread must be parked, or the frame
@@ -55,6 +69,17 @@ def live_slots(frame, raw_struct, finished):
     if raw.f_stacktop != 0:
         # suspended generator frame, or (3.10) a finished frame: the frame says how much it owns
         n = (raw.f_stacktop - raw.f_valuestack) // WS
+        # self-check of the static depth computation, whenever the interpreter does record the
+        # depth: a frame suspended at YIELD_VALUE / YIELD_FROM has popped the yielded value
+        if frame.f_lasti >= 0 and not finished:
+            ins = _opname_at(frame.f_code, frame.f_lasti)
+            d = depths(frame.f_code).get(frame.f_lasti)
+            if ins in ("YIELD_VALUE", "YIELD_FROM") and d is not None:
+                SELF_CHECKS[0] += 1
+                if d - 1 != n:
+                    from ..kernel import HarnessError
+
+                    raise HarnessError("static stack depth %d-1 at %s of %s, the interpreter recorded %d" % (d, ins, frame.f_code.co_name, n))
     elif finished:
         return []
     else:
